@@ -313,3 +313,26 @@ func (s *shard) renew() (*shard, error) {
 	}()
 	return newShard(s.n, s.opts[3:]...)
 }
+
+// probe issues one RPC to the node with its own watchdog: the harness never relies on the
+// library honouring a context.
+func probe(node *dev.Node, timeout time.Duration) bool {
+	res := make(chan bool, 1)
+	go func() {
+		defer func() {
+			if recover() != nil {
+				res <- false
+			}
+		}()
+		ctx, cancel := context.WithTimeout(context.Background(), timeout)
+		defer cancel()
+		_, err := node.GRPCCall(ctx, &dev.Request{Value: "probe|0|x"})
+		res <- err == nil
+	}()
+	select {
+	case ok := <-res:
+		return ok
+	case <-time.After(timeout + 300*time.Millisecond):
+		return false
+	}
+}
